@@ -85,6 +85,8 @@ def build(spec):
         return dec_str(spec[1])
     if k == "bytes":
         return bytes.fromhex(spec[1])
+    if k == "zeros":
+        return bytes(int(spec[1]))            # n zero bytes, for values too large to spell out in a case
     if k == "dt":
         y, mo, d, h, mi, s, us = spec[1]
         return _dtm.datetime(y, mo, d, h, mi, s, us, tzinfo=tz_of(spec[2]), fold=spec[3] if len(spec) > 3 else 0)
